@@ -1050,40 +1050,47 @@ fn corr_maha(out: &mut Out, cov: Option<&[Vec<f64>]>, data: Option<&[Vec<f64>]>,
 // ------------------------------------------------------------------------------------------
 // replay
 // ------------------------------------------------------------------------------------------
-fn replay(path: &str) -> i32 {
-    let v = read_replay(path);
-    let inp = if v.get("input").is_some() { v["input"].clone() } else { v.clone() };
-    let mut out = Out::new("C17", "replay");
+/// evaluate the oracle that belongs to one replay / corpus input; false = unknown entry
+fn replay_into(out: &mut Out, inp: &Value, fam: &str) -> bool {
     let f32m = inp["f32"].as_bool().unwrap_or(false);
     let x = f64s_from_json(&inp["x"]);
     let y = f64s_from_json(&inp["y"]);
     let z = f64s_from_json(&inp["z"]);
     match inp["entry"].as_str().unwrap_or("") {
-        "metric" => check_metric(&mut out, Kind::from_json(&inp), &x, &y, &z, f32m, "replay"),
-        "minkowski_special" => check_minkowski_special(&mut out, &x, &y, f32m),
-        "mismatch" => check_mismatch(&mut out, Kind::from_json(&inp), &x, &y, f32m),
+        "metric" => check_metric(out, Kind::from_json(inp), &x, &y, &z, f32m, fam),
+        "minkowski_special" => check_minkowski_special(out, &x, &y, f32m),
+        "mismatch" => check_mismatch(out, Kind::from_json(inp), &x, &y, f32m),
         "maha_cov" => {
             let c = rows_from_json(&inp["cov"]);
-            check_maha(&mut out, Some(&c), None, &x, &y, &z, f32m, "replay");
+            check_maha(out, Some(&c), None, &x, &y, &z, f32m, fam);
         }
         "maha_data" => {
             let d = rows_from_json(&inp["data"]);
-            check_maha(&mut out, None, Some(&d), &x, &y, &z, f32m, "replay");
+            check_maha(out, None, Some(&d), &x, &y, &z, f32m, fam);
         }
-        "maha_identity" => check_maha_identity(&mut out, &x, &y, f32m),
+        "maha_identity" => check_maha_identity(out, &x, &y, f32m),
         "maha_mismatch" => {
             let n = inp["n"].as_u64().unwrap_or(1) as usize;
             let id: Vec<Vec<f64>> = (0..n).map(|i| (0..n).map(|j| if i == j { 1.0 } else { 0.0 }).collect()).collect();
+            out.count("search:mismatch:mahalanobis");
             if let Ok(m) = Maha::from_cov(&id, f32m) {
                 if m.distance(&x, &y).is_ok() {
-                    out.fail("length_mismatch_rejected", "accepted", inp.clone());
+                    out.fail("length_mismatch_rejected", "Mahalanobis accepted a vector whose length differs from the covariance", inp.clone());
                 }
             }
         }
-        _ => {
-            eprintln!("unknown replay entry");
-            return 2;
-        }
+        _ => return false,
+    }
+    true
+}
+
+fn replay(path: &str) -> i32 {
+    let v = read_replay(path);
+    let inp = if v.get("input").is_some() { v["input"].clone() } else { v.clone() };
+    let mut out = Out::new("C17", "replay");
+    if !replay_into(&mut out, &inp, "replay") {
+        eprintln!("unknown replay entry");
+        return 2;
     }
     if out.n_fail() > 0 {
         println!("REPLAY: property=C17 still fails: {}", path);
@@ -1091,6 +1098,26 @@ fn replay(path: &str) -> i32 {
     } else {
         println!("REPLAY: property=C17 passes: {}", path);
         0
+    }
+}
+
+/// the minimised regression inputs of /verif/corpus/C17 (replay format), sorted by name
+fn run_corpus(out: &mut Out) {
+    let dir = "/verif/corpus/C17";
+    let mut files: Vec<std::path::PathBuf> = match std::fs::read_dir(dir) {
+        Ok(rd) => rd.filter_map(|e| e.ok().map(|e| e.path())).filter(|p| p.extension().map(|e| e == "json").unwrap_or(false)).collect(),
+        Err(_) => return,
+    };
+    files.sort();
+    for f in files {
+        if let Ok(txt) = std::fs::read_to_string(&f) {
+            if let Ok(v) = serde_json::from_str::<Value>(&txt) {
+                let inp = if v.get("input").is_some() { v["input"].clone() } else { v.clone() };
+                if replay_into(out, &inp, "corpus") {
+                    out.count("search:corpus-file");
+                }
+            }
+        }
     }
 }
 
@@ -1108,7 +1135,8 @@ fn main() {
     );
     let kinds_basic = [Kind::Euclid, Kind::Manhattan, Kind::Hamming];
 
-    // ---- corpus: the vectors of the repository's own unit tests ----
+    // ---- corpus: minimised regression inputs, then the vectors of the repository's own unit tests ----
+    run_corpus(&mut out);
     let (t1, t2) = (vec![1.0, 2.0, 3.0], vec![4.0, 5.0, 6.0]);
     for k in [Kind::Euclid, Kind::Manhattan, Kind::Minkowski(1), Kind::Minkowski(2), Kind::Minkowski(3), Kind::Hamming] {
         check_metric(&mut out, k, &t1, &t2, &vec![0.0, 0.0, 0.0], false, "corpus");
